@@ -9,6 +9,13 @@ Open Scope outcome_scope.
 Definition exp_at (i : N) : outcome N := nth_ok OCT_EXP (N.to_nat i).
 Definition log_at (a : N) : outcome N := nth_ok OCT_LOG (N.to_nat a).
 
+(* value-level (total) versions of the table arithmetic; Proofs/OctetProofs.v shows that the
+   outcome-returning functions below return exactly these on octets *)
+Definition expN (i : N) : N := nth (N.to_nat i) OCT_EXP 0.
+Definition logN (a : N) : N := nth (N.to_nat a) OCT_LOG 0.
+Definition mulN (a b : N) : N := if (a =? 0) || (b =? 0) then 0 else expN (logN a + logN b).
+Definition divN (a b : N) : N := if a =? 0 then 0 else expN (255 + logN a - logN b).
+
 (* impl Add / Sub / AddAssign: xor *)
 Definition oct_add (a b : N) : N := N.lxor a b.
 
